@@ -10,7 +10,7 @@ T = {
  "C01": ("CFG dominance + def-use over Context.evaluate/evaluate_action/apply; sibling-ladder and table agreement in commands.py",
          "Decides the skeleton clauses of the composition law on every path of the named functions (recursion on (predecessor, last step), parameter forwarding, order-preserving argument expansion, link routing, executable wrappers, parser-selection table vs converters, namespace resolution order, default filling).",
          "NOT decided: equality of value / variables / last command with a reference interpretation for every query (value-level). Trusted: CPython ast; implicit exceptions outside try are not modelled."),
- "C02": ("grammar/printer extraction: pyparsing IR -> relaxed CFG recogniser; abstract interpretation of encode() -> printer sentences; field-read completeness",
+ "C02": ("grammar/printer extraction: pyparsing IR -> relaxed CFG recogniser (superset) and exact deterministic recogniser; abstract interpretation of encode() -> printer sentences; class-directed membership; start-rule priority with witness spelling; printer injectivity; field-read completeness",
          "Decides printer-subset-of-parser on enumerated printer sentences for all constructor shapes reachable from the parse actions (alarms are exact because the recogniser accepts a superset of the real parser's language), that encode reads every structural field, parseAll on both entry points, and that identities derive from encode().",
          "NOT decided: structural identity of the re-parse for every accepted string (PEG ordered-choice/greediness effects inside the relaxed language)."),
  "C03": ("table/IR premise discharge (T1-T16) of a paper round-trip lemma, re-established from ESCAPE_SEQUENCES, the entity grammar and the token functions on every run",
@@ -40,7 +40,7 @@ T = {
  "C11": ("table extraction per state type (writer/reader extension sets, identifiers), injection lint on the hand-built djson text",
          "Decides default extension in W and R for the armed types, identifier uniqueness across all shipped types, registry keyed by the same identifier on both sides, djson interpolations escaped, element triple order agreement, copy freshness.",
          "NOT decided: value equality after a round trip for any format."),
- "C12": ("ordering rule on the write effects of each back-end's store(); data-presence witness; ready gate",
+ "C12": ("ordering rule on the write effects of each back-end's store(); data-presence witness; ready gate; placeholder-only metadata writes in the in-memory cache (path rule)",
          "Decides only the clause 'an entry still being produced is never served as finished': data published before/with the ready marker per back-end, witness per back-end, get() gated on ready.",
          "NOT decided: serialisability over interleavings - there is no lock discipline to analyse; that is a model-checking question (stated in DESIGN.md)."),
  "C13": ("sibling/forwarding rules over all cache classes, SQL effect summaries (memo invalidation, delete-before-insert with factory constant propagation), codec-discipline lint",
@@ -100,7 +100,7 @@ def main():
                   "baseline_off_cmd": "cd /repo && /venv/bin/python -m pytest -ra -q -p no:cacheprovider --timeout=900 --continue-on-collection-errors",
                   "source_commits": [], "add_only": True},
         "engines": [{"name": "sa", "path": "/verif/sa", "serves_properties": [c["property_id"] for c in checks],
-                     "kind_free_text": "repository-specific static analysis on CPython ast: class index/MRO, statement CFG with reachability-under-removal (dominance, must-pass-through, edge dominance), syntactic reaching definitions, effect scans, table/grammar extraction; stdlib only, never imports or runs liquer"}],
+                     "kind_free_text": "repository-specific static analysis on CPython ast: class index/MRO, statement CFG with reachability-under-removal (dominance, must-pass-through, edge dominance), syntactic reaching definitions, effect scans, table/grammar extraction (relaxed and exact recognisers); a behaviour-preserving canonicalisation pipeline (helper inlining, local renaming by defining form, conditional/boolean/generator normal forms) runs before the rules so that refactors do not raise alarms; stdlib only, never imports or runs liquer"}],
         "checks": checks,
         "notes": "Exit 0 = all rule instances hold (KNOWN-FINDING lines for listed findings); 1 = VIOLATION; 2 = ANALYSIS-ERROR (anchor vanished / instance floor not met). Thorough = quick + wider enumeration bounds + cross-reference of out-of-quantifier implementations + mutant/benign-twin self-validation on scratch copies under $TMPDIR.",
         "not_applicable": na,
